@@ -372,6 +372,10 @@ func writeEvidence(v *Verifier, vdir, prop, tier string, seed int, agg map[strin
 		"calls to log/fmt/metrics/time functions have no effect on heap or ghost state and do not panic",
 		"panic paths are analysed only in functions whose contract says nopanic; elsewhere run-time panic conditions are assumed not to occur",
 		"goroutine bodies are not executed in the spawner; sync primitives are atomic",
+		"floating-point values are opaque; a float -> integer conversion yields the truncated value wrapped into the target type like an integer narrowing (what amd64 does for |x| < 2^63; Go leaves out-of-range results to the implementation)",
+		"objects reached through references that existed before the call (slices, maps, channels behind a pointer parameter) are distinct from the objects the activation allocates itself",
+		"built-in models (assumed semantics): bytes.Buffer / gxbytes.Buffer as a byte string that only grows by writes; fmt.Sprintf(\"%v\", x) as an uninterpreted function of x (a string prints as itself); errors.Is / errors.New / pkg/errors wrappers; sync.Once, sync.Map as sequential objects; context.WithValue; reflect.ValueOf / Kind / Int / Uint / Float / Interface / DeepEqual as far as datasource.DeepEqual uses them (Kind is a function of the dynamic type, DeepEqual on two strings is string equality, otherwise uninterpreted); the used models are listed below",
+		"a Go map range hands out every key present when the range started exactly once, in an arbitrary order (ghost visited-set); string keys are indexed by an injective function",
 	}
 	for _, n := range sortedKeys(v.notes) {
 		assumptions = append(assumptions, "note: "+n)
